@@ -205,7 +205,7 @@ def build(rng):
             'multi': any(m and len(m[3]) >= 2 for m in members), 'res': res, 'cas': cas, 'key_entries': key_entries}
 
 def gen_cases(rng, tier):
-    n = 120 if tier == 'quick' else 2500
+    n = 400 if tier == "quick" else 2500
     for k in range(n):
         yield build(rng)
 
